@@ -669,9 +669,19 @@ func (api *API) hasKeyOfMember(m map[string]any, memberType reflect.Type, visite
 
 	switch {
 	case memberType.Kind() == reflect.Interface:
-		_, has := m[keyType]
+		// the type code in the map belongs to the member if it is the code of one of its implementations (the key is
+		// shared with the type code of the struct and with other inlined members)
+		objectCode, isNumber := m[keyType].(float64)
+		if !isNumber {
+			return false
+		}
+		interfaceObjects := api.getInterfaceObjects(memberType)
+		if interfaceObjects == nil {
+			return true
+		}
+		objectType, registered := interfaceObjects.GetObjectTypeByCode(uint32(objectCode))
 
-		return has
+		return registered && objectType != nil
 	case memberType.Kind() != reflect.Struct || memberType == timeType || memberType == bigIntPtrType.Elem():
 		return true
 	}
